@@ -108,6 +108,11 @@ func (c *conn) serveRequests() error {
 		}
 		r, err := c.readRequest(w.requestID)
 		if err != nil {
+			if c.shutdownCtx.Err() != nil {
+				// the server is stopping (which interrupts a blocked read):
+				// go send the notice of disconnection.
+				continue
+			}
 			if errors.Is(err, io.EOF) || errors.Is(err, io.ErrUnexpectedEOF) || strings.Contains(err.Error(), "unexpected EOF") {
 				return nil // connection is closed
 			}
